@@ -1,6 +1,7 @@
 """C09 — any load / modify / save history leaves correct files and a live process.
 
-Histories over {load(p, mmap), get_fdata, uncache, edit header field, set affine (image API), edit the header affine fields, set_data_dtype, save(p),
+Histories over {load(p, mmap), re-wrap (a NEW array image built from the live image's data: view of the memmap, the memmap,
+the proxy, a copy, the get_fdata() array), get_fdata, uncache, edit header field, set affine (image API), edit the header affine fields, set_data_dtype, save(p),
 to_bytes} with p in {a.nii, a.nii.gz, b.nii, a.img(+a.hdr), a.mgh, a.mgz, s.img(+.hdr,.mat: SPM2 Analyze), n.nii (NIfTI-2),
 c.img.gz(+c.hdr.gz), a.nii.bz2, b.nii.zst}.  Every history runs in a CHILD
 process (batched; a dying child is an observable, not an infrastructure failure).  The observable line is compared
@@ -54,6 +55,12 @@ THEOREMS = [
     'Nb.C09.generated_outCls_agree',
     'Nb.C09.saved_affine_close',
     'Nb.C09.generated_transform_rules_agree',
+    'Nb.C09.wrap_of_mapped_proxy',
+    'Nb.C09.orig_view_overwrite_crashes',
+    'Nb.C09.orig_view_overwrite_crashes_witness',
+    'Nb.C09.current_view_overwrite_ok',
+    'Nb.C09.inst_guard_safe_off_views',
+    'Nb.C09.generated_guard_agrees',
     'Nb.C09.fs0_wf',
     'Nb.C09.fs0_clsWF',
     'Nb.C09.hdrEdits_spec',
@@ -79,10 +86,13 @@ ASSUMPTIONS = [
     'OPEN finding (guard of history_safe_partial): after a save onto the live image\'s own source path that changes '
     'the on-disk layout (dtype/scaling) the live image reads through a stale proxy / stale float64 memmap cache',
 ]
-RULE = ('streams: hdraffine (header sform/qform edited directly — to another affine or to the image\'s own affine with a '
+RULE = ('streams: wrap (load p, re-wrap the data as a NEW array image — plain view / np.memmap / proxy / [::1] / .T.T / '
+        '.view(ndarray) / asfortranarray / [..., :] / copy / get_fdata() —, save onto the same path, another path, another '
+        'spelling, for every mmap-able path x mmap mode x small/big); hdraffine (header sform/qform edited directly — to another affine or to the image\'s own affine with a '
         'different code — or via the image API, then first/second save to same- and other-flavour targets, for NIfTI-1/2 '
         'single and pair, MGH, SPM2); exh3x (suffixes over the ops on the SPM2 pair, NIfTI-2, compressed pair, .bz2, .zst '
-        'names incl. get_fdata(float32)); selfsave (the repaired defect: load p, [ops], save p ... for every path x mmap x dtype x small/big '
+        'names incl. get_fdata(float32)); exh3w/exh4w (suffixes over re-wrap ops, loads and saves of the mmap-able '
+        'names); selfsave (the repaired defect: load p, [ops], save p ... for every path x mmap x dtype x small/big '
         'shape); spelling (self-overwrite where load and save name the same file differently: absolute, relative, ./, '
         'sub/../, symlink, hard link, pair header name — all pairs of spellings, every path); exh3/exh4/exh5: first op load(p, mmap) then ALL suffixes over the op alphabet (27 ops: 12 loads, 6 '
         'saves, 3 set_data_dtype, get_fdata, uncache, edit, set affine, header-affine edit, to_bytes; exh5 / quick exh4 over a 16-op '
@@ -220,6 +230,53 @@ def regen():
                 first_open = node.lineno if first_open is None else min(first_open, node.lineno)
         return first_copy is not None and first_open is not None and first_copy < first_open
 
+    def guard_kind(fn):
+        """the copy guard of a to_file_map body: 0 none / 1 `isinstance(data, np.memmap)` / 2 `maps_file(data)`"""
+        tree = ast.parse(textwrap.dedent(inspect.getsource(fn)))
+        kinds = []
+        for node in ast.walk(tree):
+            if isinstance(node, ast.If) and isinstance(node.test, ast.Call) and not node.orelse:
+                t = node.test
+                copies = any(isinstance(st, ast.Assign) and [getattr(x, 'id', None) for x in st.targets] == ['data'] and
+                             isinstance(st.value, ast.Call) and getattr(st.value.func, 'attr', None) == 'array' and
+                             [getattr(a, 'id', None) for a in st.value.args] == ['data'] for st in node.body)
+                if not copies:
+                    continue
+                if getattr(t.func, 'id', None) == 'maps_file' and [getattr(a, 'id', None) for a in t.args] == ['data']:
+                    kinds.append(2)
+                elif getattr(t.func, 'id', None) == 'isinstance' and 'memmap' in ast.dump(t):
+                    kinds.append(1)
+        return kinds[0] if len(kinds) == 1 else 0
+
+    def maps_file_follows_base():
+        """AST of volumeutils.maps_file: `while isinstance(arr, np.ndarray):` whose body returns True on
+        `isinstance(arr, np.memmap)` and steps `arr = arr.base`; then `return isinstance(arr, mmap.mmap)` — and the
+        function behaves so (maps_file_ok)"""
+        from nibabel import volumeutils
+        f = getattr(volumeutils, 'maps_file', None)
+        if f is None:
+            return False
+        fn = ast.parse(textwrap.dedent(inspect.getsource(f))).body[0]
+        body = [st for st in fn.body if not (isinstance(st, ast.Expr) and isinstance(st.value, ast.Constant))]
+        if len(body) != 2 or not isinstance(body[0], ast.While) or not isinstance(body[1], ast.Return):
+            return False
+        arg = fn.args.args[0].arg
+
+        def is_inst(e, mod, cls):
+            return (isinstance(e, ast.Call) and getattr(e.func, 'id', None) == 'isinstance' and len(e.args) == 2 and
+                    getattr(e.args[0], 'id', None) == arg and isinstance(e.args[1], ast.Attribute) and
+                    e.args[1].attr == cls and getattr(e.args[1].value, 'id', None) == mod)
+        w = body[0]
+        if not is_inst(w.test, 'np', 'ndarray') or w.orelse or len(w.body) != 2:
+            return False
+        i, a = w.body
+        ok_if = (isinstance(i, ast.If) and is_inst(i.test, 'np', 'memmap') and not i.orelse and len(i.body) == 1 and
+                 isinstance(i.body[0], ast.Return) and isinstance(i.body[0].value, ast.Constant) and
+                 i.body[0].value.value is True)
+        ok_step = (isinstance(a, ast.Assign) and [getattr(x, 'id', None) for x in a.targets] == [arg] and
+                   isinstance(a.value, ast.Attribute) and a.value.attr == 'base' and getattr(a.value.value, 'id', None) == arg)
+        return ok_if and ok_step and is_inst(body[1].value, 'mmap', 'mmap') and maps_file_ok()
+
     class_table = []
     for k in all_image_classes:
         class_table.append((code.get(k.__name__, 9), sorted({fam[e] for e in k.valid_exts if e in fam})))
@@ -332,11 +389,17 @@ def regen():
            '    1 qform_code —, transform returned — 0 get_sform / 1 get_qform); then the fallback (2 = get_base_affine) -/',
            'def bestAffineOrder : List (Nat × Nat) := [' + ', '.join('(%d, %d)' % r for r in best_order()[0]) + ']',
            'def bestAffineFallback : Nat := %d' % best_order()[1], '',
+           '/-- copy guard of `AnalyzeImage.to_file_map` / `MGHImage.to_file_map` (AST): 0 none / 1 `isinstance(data,',
+           '    np.memmap)` / 2 `maps_file(data)`; and: `volumeutils.maps_file` is the loop over `.base` with an np.memmap',
+           '    instance test that ends in an `mmap.mmap` test (AST + behaviour on a memmap, three views, a copy) -/',
+           'def analyzeGuard : Nat := %d' % guard_kind(nib.AnalyzeImage.to_file_map),
+           'def mghGuard : Nat := %d' % guard_kind(nib.MGHImage.to_file_map),
+           f'def mapsFileFollowsBase : Bool := {b(maps_file_follows_base())}', '',
            'end Nb.C09.Gen', '']
     common.write_if_changed(os.path.join(common.LEAN, 'NibabelModel', 'Generated', 'C09.lean'), '\n'.join(src))
     return ['Generated.C09.pathTable', 'Generated.C09.mghDtypes', 'Generated.C09.copiesBeforeOpen',
             'Generated.C09.classTable', 'Generated.C09.saveSpecial', 'Generated.C09.hasToBytes',
-            'Generated.C09.affine2headerCodes', 'Generated.C09.bestAffineOrder']
+            'Generated.C09.affine2headerCodes', 'Generated.C09.bestAffineOrder', 'Generated.C09.copyGuard']
 
 
 # ------------------------------------------------------------------------------------------- cases
@@ -368,6 +431,8 @@ HA, HB = 'H%d' % OTHER_A, 'H%d' % OTHER_B      # header edit: sform (code 3) / s
 AA, AB = 'A%d' % OTHER_A, 'A%d' % OTHER_B
 FULL_ALPHA = ([f'L{p}{m}' for p in range(6) for m in (1, 0)] + [f'S{p}' for p in range(6)] +
               ['Di16', 'Df32', 'Df64', 'F', 'U', 'E1', AA, HB, 'B'])
+# re-wrap ops among loads / saves of the mmap-able single-file, pair and MGH names
+W_ALPHA = ['W0', 'W1', 'W9', 'W4', 'S0', 'S2', 'S3', 'S4', 'F', 'U', 'Df32', 'L01', 'L31', 'L41', HB]
 SMALL_ALPHA = [f'L{p}1' for p in (0, 3, 4, 5)] + [f'S{p}' for p in range(6)] + ['Df32', 'F', 'U', HB]
 # the names added to the alphabet: SPM2 pair, NIfTI-2, compressed pair, .bz2, .zst (+ a.img for Nifti2Pair, a.nii)
 X_ALPHA = ([f'L{c}1' for c in '36789a'] + [f'S{c}' for c in '0346789a'] +
@@ -431,6 +496,34 @@ def spelling_cases():
                     out.append(mk_case(init, [f'L{c}1@{ls}', 'F', f'S{c}@{ss}', 'F'], big, 'spelling'))
                     out.append(mk_case(init, [f'L{c}1@{ls}', f'S{q}@{ss}', f'S{c}@{ss}', AA, f'S{c}@{ls}'], big,
                                        'spelling'))
+    return out
+
+
+PLAIN = [p for p in range(NP) if p not in COMPRESSED]     # names whose file can be memory mapped
+
+
+def wrap_cases():
+    """load p, re-wrap (variant k), save: onto the same path (by several spellings / entry points), onto another path
+    first, after get_fdata, twice re-wrapped; every plain path, mmap True / 'r' / False, small and multi-page arrays"""
+    out = []
+    for p in PLAIN:
+        c, q = PCH[p], PCH[(p + 2) % NP]
+        for m in (1, 2, 0):
+            for k in range(10):
+                for big in ((False, True) if m == 1 else (False,)):
+                    init = list(INIT_I16)
+                    init[p] = 'f64' if (k == 9 or (k + p) % 4 == 0) and p not in MGH_PATHS else \
+                        ('f32' if (k + p) % 4 == 1 else 'i16')
+                    hs = [[f'L{c}{m}', f'W{k}', f'S{c}'],
+                          [f'L{c}{m}', f'W{k}', f'S{q}', f'S{c}', 'F'],
+                          [f'L{c}{m}', 'F', f'W{k}', f'S{c}@{1 + (k + p) % 4}', 'F', f'S{c}'],
+                          [f'L{c}{m}', f'W{k}', f'W{(k + 3) % 10}', f'S{c}@8', 'B']]
+                    if p in IMG_PATHS:
+                        hs.append([f'L{c}{m}@6', f'W{k}', f'S{c}@6'])
+                    if m == 1 and not big:
+                        hs.append([f'L{c}1', f'W{k}', HA, f'S{q}', f'L{q}1', f'W{(k + 1) % 10}', f'S{c}', f'S{q}'])
+                    for h in (hs if not big else hs[:2]):
+                        out.append(mk_case(init, h, big, 'wrap'))
     return out
 
 
@@ -512,8 +605,10 @@ def rand_op(rng):
         return 'E%d' % rng.choice([1, 2, 3])
     if r < 0.92:
         return 'A%d' % rng.choice([OTHER_A, OTHER_B, 3])
-    if r < 0.97:
+    if r < 0.95:
         return 'H%d' % rng.choice([OTHER_A, OTHER_B, 0, 3, 7])
+    if r < 0.98:
+        return 'W%d' % rng.randrange(10)
     return 'B'
 
 
@@ -551,7 +646,7 @@ def random_cases(rng, n, safe_bias=0.7):
 
 
 def cases(rng, tier):
-    out = selfsave_cases() + spelling_cases() + hdraffine_cases()
+    out = selfsave_cases() + spelling_cases() + hdraffine_cases() + wrap_cases()
     first_all = [f'L{p}{m}' for p in range(6) for m in (1, 0)]
     first_q = [f'L{p}1' for p in range(6)] + ['L00', 'L30', 'L40']
     first_mm = [f'L{p}1' for p in range(6)]
@@ -560,6 +655,7 @@ def cases(rng, tier):
         out += exhaustive(INIT_MIXED, first_q, FULL_ALPHA, 2, 'exh3')
         out += exhaustive(INIT_MIXED, [first_mm[0], first_mm[4]], SMALL_ALPHA, 3, 'exh4')
         out += exhaustive(INIT_X, first_x, X_ALPHA, 2, 'exh3x')
+        out += exhaustive(INIT_MIXED, ['L01', 'L21', 'L31', 'L41', 'L02'], W_ALPHA, 2, 'exh3w')
         out += random_cases(rng, 1500)
     elif tier == 'thorough':
         out += exhaustive(INIT_MIXED, first_all, FULL_ALPHA, 2, 'exh3')
@@ -569,10 +665,13 @@ def cases(rng, tier):
         out += exhaustive(INIT_X, first_x + ['L31', 'L80', 'L70'], X_ALPHA, 2, 'exh3x')
         out += exhaustive(INIT_I16, first_x, X_ALPHA, 2, 'exh3x')
         out += exhaustive(INIT_X, ['L61', 'L71', 'L81'], X_ALPHA, 3, 'exh4x')
+        out += exhaustive(INIT_MIXED, ['L01', 'L21', 'L31', 'L41', 'L02', 'L00'], W_ALPHA, 2, 'exh3w')
+        out += exhaustive(INIT_MIXED, ['L01', 'L31', 'L41'], W_ALPHA, 3, 'exh4w')
         out += random_cases(rng, 20000)
     else:   # search
         out += exhaustive(INIT_MIXED, first_all, FULL_ALPHA, 2, 'exh3')
         out += exhaustive(INIT_X, first_x, X_ALPHA, 2, 'exh3x')
+        out += exhaustive(INIT_MIXED, ['L01', 'L21', 'L31', 'L41', 'L02'], W_ALPHA, 2, 'exh3w')
         out += random_cases(rng, 6000, safe_bias=0.9)
     return out
 
@@ -733,6 +832,15 @@ def _layout_track(d, line):
             cached = {'f32' if op.startswith('F4') else 'f64'}     # one cache, of the dtype asked for last
         elif op == 'U':
             cached = set()
+        elif op[0] == 'W' and tok == 'ok':
+            # the new image reads the source file only through a view of the map / the proxy
+            mapped = mm and src is not None and src not in COMPRESSED and src_lay is not None and not src_lay[1]
+            k = int(op[1])
+            if k == 2:
+                pass
+            elif k == 8 or not mapped or (k == 9 and not (src_lay[0] == 'f64' and not src_lay[2])):
+                src = src_lay = None          # owns its memory: nothing can go stale
+            cached = set()
         elif op[0] == 'S' and tok.startswith('S:') and tok.count('/') == 5:
             q = pidx(op[1])
             dts = tok.split('/')[2]
@@ -752,7 +860,7 @@ def signature(case, what):
     if k in _RES and m:
         at, opname = int(m.group(1)), m.group(2)
         stale_at, alias = _layout_track(d, _RES[k][0])
-        reads_live = opname in ('F', 'F4', 'B', 'final') or opname.startswith('S')
+        reads_live = opname in ('F', 'F4', 'B', 'final') or opname[0] in 'SW'
         wrote_wrong = 'written file' in what
         if stale_at is not None and at > stale_at and reads_live and not wrote_wrong:
             if alias and opname in ('F', 'F4', 'final'):
@@ -1043,6 +1151,26 @@ def _child(jobfile, outfile, workdir):
                 else:
                     img.header.set_sform(B, code=3)
                 tok = 'ok'
+            elif c == 'W':
+                # replace the live image by a NEW array image of the same class built from its data
+                kk = int(op[1])
+                try:
+                    do = img.dataobj
+                    arr = {0: lambda: np.asarray(do), 1: lambda: np.asanyarray(do), 2: lambda: do,
+                           3: lambda: np.asarray(do)[::1], 4: lambda: np.asarray(do).T.T,
+                           5: lambda: np.asanyarray(do).view(np.ndarray), 6: lambda: np.asfortranarray(np.asanyarray(do)),
+                           7: lambda: np.asanyarray(do)[..., :], 8: lambda: np.array(do), 9: lambda: img.get_fdata()}[kk]()
+                    new = type(img)(arr, img.affine, img.header)
+                    wok = new.get_filename() is None and data_id(np.array(new.dataobj), shape) != 'X'
+                except Exception as e:
+                    wok = False
+                    prob = 're-wrapping the live image raised ' + repr(e)[:120]
+                if wok:
+                    img, tok = new, 'ok'
+                    del do, arr, new
+                else:
+                    tok, dead = 'W:BAD', True
+                    prob = prob or 'the re-wrapped image does not yield the image data'
             elif c == 'D':
                 try:
                     img.set_data_dtype(np.dtype(NP_DT[op[1:]]))
